@@ -45,7 +45,7 @@ func (fr *Frame) execCallWith(instr ssa.Instruction, call *ssa.CallCommon, fnv *
 		m := call.Method
 		full := m.FullName()
 		site := fr.callSite(m.Name())
-		fr.checkAsserts(m.Name(), st, reach)
+		fr.checkAsserts(m.Name(), st, reach, append([]*Val{fnv}, args...)...)
 		if bc := c.V.contractFor(full); bc != nil {
 			return fr.applyContract(instr, bc, sig, fnv, args, st, reach, site)
 		}
@@ -114,7 +114,7 @@ func (fr *Frame) callStatic(instr ssa.Instruction, callee *ssa.Function, bind []
 		name = name[:k] // instantiation of a generic function: Get[string,...] is addressed as Get
 	}
 	site := fr.callSite(name)
-	fr.checkAsserts(name, st, reach)
+	fr.checkAsserts(name, st, reach, args...)
 	if v, ok := fr.nativeModel(instr, full, callee, args, st, reach, rt); ok {
 		return v
 	}
@@ -158,7 +158,7 @@ func shortName(full string) string {
 }
 
 // checkAsserts discharges `assert @call(name)#n` clauses of the function's contract.
-func (fr *Frame) checkAsserts(name string, st *State, reach *Term) {
+func (fr *Frame) checkAsserts(name string, st *State, reach *Term, callArgs ...*Val) {
 	if fr.contract == nil {
 		return
 	}
@@ -172,6 +172,12 @@ func (fr *Frame) checkAsserts(name string, st *State, reach *Term) {
 		env.frame = fr
 		env.blk = fr.curBlock
 		env.atEnd = true
+		// $arg0, $arg1, ...: the operands of this call (for a method called statically, $arg0 is the receiver)
+		for i, a := range callArgs {
+			if a != nil {
+				env.vars[fmt.Sprintf("$arg%d", i)] = a
+			}
+		}
 		g, err := env.evalBool(cl.Expr)
 		if err != nil {
 			fr.unsupported(0, "assert %s: %v", cl.Text, err)
